@@ -4,6 +4,7 @@ requests with a real child whose two output streams are deterministic and distin
 the README's routing rules predicts every file, the mail and the journal."""
 import json
 import os
+import time
 import re
 import shutil
 import tempfile
@@ -61,6 +62,13 @@ def gen_case(rng, wd, job_exe):
     if rng.random() < 0.12:
         c["paused"] = rng.choice([100, 250])
         steps.insert(rng.randint(1, len(steps)), "z:%d" % c["paused"])
+    # the day of the calendar on which the job runs (the executor's wall clock is set there)
+    c["clock_at"] = None
+    if rng.random() < 0.3:
+        import calendar
+        y = rng.randint(1971, 2037)
+        mo, dom = rng.choice([(2, 28), (2, 29) if y % 4 == 0 else (2, 28), (3, 1), (12, 31), (1, 1), (1, 31), (rng.randint(1, 12), rng.randint(1, 28))])
+        c["clock_at"] = calendar.timegm((y, mo, dom, rng.choice([0, 12, 23]), rng.choice([0, 59]), rng.choice([0, 58])))
     c["sleep"] = 0
     if rng.random() < 0.15:
         c["sleep"] = rng.choice([150, 400])
@@ -170,7 +178,7 @@ def run_case(root, part, rng, stored=None):
             c = restore_case(stored, wd, build.exe(root, "asan", "h_job"))
         req = request(c, wd)
         part.evaluations += 1
-        r = echsx.run_echsx(root, req, wd, args=("-v", "-n") if c["norun"] else ("-v",))
+        r = echsx.run_echsx(root, req, wd, args=("-v", "-n") if c["norun"] else ("-v",), clock_at=c.get("clock_at"))
         fails = []
         fail = lambda k, d: fails.append((k, d))
         row = c["row"]
@@ -270,6 +278,21 @@ def run_case(root, part, rng, stored=None):
                     ds, dc = echsx.jfield(j, "DTSTART"), echsx.jfield(j, "COMPLETED")
                     if not ds or not dc or ds > dc:
                         fail("journal-times", "DTSTART %s COMPLETED %s" % (ds, dc))
+                    elif c.get("clock_at"):
+                        # the executor's clock was set: the stamps are that day and time, to within the run's length
+                        import calendar
+                        part.count("runs_on_a_set_calendar_day")
+                        for name in ("DTSTART", "COMPLETED", "DTSTAMP"):
+                            v = echsx.jfield(j, name) or ""
+                            m = re.match(r"(\d{4})(\d\d)(\d\d)T(\d\d)(\d\d)(\d\d)Z$", v)
+                            try:
+                                e = calendar.timegm(tuple(int(x) for x in m.groups())) if m and 1 <= int(m.group(2)) <= 12 and 1 <= int(m.group(3)) <= 31 else None
+                            except (ValueError, OverflowError):
+                                e = None
+                            if e is None or not (c["clock_at"] - 2 <= e <= c["clock_at"] + took / 1000.0 + 20):
+                                fail("journal-calendar-date", "the run started at epoch %d (%s UTC), journal says %s:%s"
+                                     % (c["clock_at"], time.strftime("%Y-%m-%d %H:%M:%S", time.gmtime(c["clock_at"])), name, v))
+                                break
             # temporary files
             for t in r.tmpfiles:
                 if os.path.exists(t):
